@@ -279,9 +279,27 @@ func c07Cyclic(c *Ctx) int {
 		}
 		return a == b
 	}
+	// round 14: paths far longer than any tree is deep - legal wherever a structure contains itself. Slot 1
+	// leads back into the cycle in every shape (shape 1: root -> child -> root takes two steps of 1), the
+	// last step takes slot 0 (a leaf), slot 1 (the cycle again) or slot 7 (nothing)
+	var long [][]int
+	for _, n := range []int{64, 255, 256, 257, 258, 300, 511, 512, 513, 1025} {
+		for _, last := range []int{0, 1, 7} {
+			p := make([]int, n)
+			for i := range p {
+				p[i] = 1
+			}
+			p[n-1] = last
+			long = append(long, p)
+		}
+	}
 	for shape := 0; shape < 4; shape++ {
 		root := build(shape)
-		for _, p := range c07Paths(5, 0, 2) {
+		paths := c07Paths(5, 0, 2)
+		if shape < 2 {
+			paths = append(paths, long...)
+		}
+		for _, p := range paths {
 			n++
 			c.Transitions.Add(1)
 			var gv any
